@@ -1,9 +1,13 @@
 #!/bin/bash
-# runs every seeded change against the check of its property (and extra checks given in seeded/<id>/also.txt)
+# runs every seeded change against the check of its property (and extra checks given in seeded/<id>/also.txt),
+# in a scratch worktree of /repo (removed afterwards); /repo itself is not touched
 cd /verif
-for d in seeded/*/; do
+wt=$(mktemp -d /tmp/matrix-XXXXXX); rmdir $wt
+git -C /repo worktree add -q --detach $wt HEAD || exit 2
+trap 'git -C /repo worktree remove --force $wt 2>/dev/null; rm -rf $wt' EXIT
+for d in seeded/${1:-}*/; do
   id=$(basename $d); pid=${id%%-*}
   for p in $pid $(cat $d/also.txt 2>/dev/null); do
-    tools/try_seed.sh $id $p quick
+    SEED_REPO=$wt tools/try_seed.sh $id $p quick
   done
 done
